@@ -249,3 +249,67 @@ func startParam(c [][2]float64, q [2]float64, from float64) float64 {
 	}
 	return bu
 }
+
+// K5 cases: one or two Bezier segments followed by a long horizontal line; the dash pattern is often longer than the curves,
+// so that whole curves lie inside one dash and the arc length they consume has to be carried over to the line.
+func k5(r *rng.R, i int, o *out.W) {
+	p := &canvas.Path{}
+	x, y := float64(r.Range(-40, 40))/4, float64(r.Range(-40, 40))/4
+	p.MoveTo(x, y)
+	fam := ""
+	nc := 1 + r.Intn(2)
+	for k := 0; k < nc; k++ {
+		w := float64(r.Range(4, 48)) / 4
+		h := float64(r.Range(2, 32)) / 4
+		if r.Bool() {
+			h = -h
+		}
+		if r.Bool() {
+			fam += "q"
+			p.QuadTo(x+w*float64(r.Range(1, 3))/4, y+h, x+w, y)
+		} else {
+			fam += "c"
+			p.CubeTo(x+w/4, y+h, x+3*w/4, y+h*float64(r.Range(2, 6))/4, x+w, y)
+		}
+		x += w
+	}
+	ll := float64(r.Range(160, 480)) / 4
+	p.LineTo(x+ll, y)
+	var d []float64
+	nd := 1 + r.Intn(3)
+	for k := 0; k < nd; k++ {
+		d = append(d, float64(r.Range(4, 160))/4)
+	}
+	off, ofam := offset(r, period(d))
+	in, _ := drawSegs(p.Data())
+	var L float64
+	var cuts []string
+	msg := safe(func() {
+		L = p.Length()
+		q := p.Dash(off, cp(d)...)
+		segs, err := pd.Decode(q.Data())
+		if err != nil {
+			panic("malformed output")
+		}
+		for _, sp := range pd.Subpaths(segs) {
+			for _, e := range [][2]float64{{sp[0].X, sp[0].Y}, {sp[len(sp)-1].X, sp[len(sp)-1].Y}} {
+				if math.Abs(e[1]-y) < 1e-9 && e[0] >= x-1e-9 {
+					cuts = append(cuts, cq.F(e[0]-x))
+				}
+			}
+		}
+	})
+	if math.IsNaN(L) || math.IsInf(L, 0) {
+		L = 0
+		if msg == "" {
+			msg = "non-finite Length"
+		}
+	}
+	var cs []string
+	for _, s := range in[:len(in)-1] {
+		cs = append(cs, ctrlTerm(s.ctrl))
+	}
+	term := fmt.Sprintf("K5 (mkK5 %s %s %s %s %s %s %s)", cq.F(off), cq.Floats(d), cq.List(cs), cq.F(ll), cq.F(L), cq.List(cuts), cq.Bool(msg != ""))
+	o.Emit(out.Case{I: i, Fam: "k5:" + fam + ":" + ofam, Coq: term, Desc: map[string]interface{}{"kind": "K5", "path": p.String(),
+		"offset": off, "dashes": d, "go": dashStr(p, off, d), "panic": msg, "length": L}})
+}
